@@ -739,7 +739,7 @@ class SamplingMethod(DirectMethod):
             d = cat["order"]
             s = self.N+d
             assert p.size2()==1
-            C = opti.variable(p.size1(), s)
+            C = opti.variable(p.size1(), s, scale=repmat(stage._scale[p], 1, s))
             BSplineSignal.register(self.signals, p, stage, BSplineSignal(C, self.xi, d, T=self.T))
 
 
